@@ -16,7 +16,7 @@
 #define VF_WELLFORMED
 #define CUT_CHECKFS
 #define VF_INCLUDE_IO_MANAGER
-#include "e2undo_pre.h"		/* (also pulls in the real lib/ext2fs/io_manager.c: io_channel_read_blk64 / io_channel_write_blk64) */
+#include "e2undo_pre.h"		/* (does #include "lib/ext2fs/io_manager.c": io_channel_read_blk64 / io_channel_write_blk64) */
 #include "misc/e2undo.c"
 #include "e2undo_env.h"
 
